@@ -417,3 +417,9 @@ package core
 //@     invariant 0 <= i && screm(scanner) <= entry(screm(scanner)) && !isnil(table)
 //@     step every_entry_is_recorded: has(table.Entries, firstObjNum + prev(i)) && table.Entries[firstObjNum + prev(i)] == entry
 //@     decreases count - i
+
+// ---- C04: the newest revision is the one the LAST startxref keyword of the file points to ----
+//@ func (*XRefParser) FindXRef results (off, err)
+//@   property C04
+//@   flags nosafety
+//@   atreturn starts_from_the_last_startxref: idx == strings.LastIndex(content, "startxref") && idx >= 0 && offset == strconv.ParseInt(strings.TrimSpace(lines[1]), 10, 64)
